@@ -533,6 +533,10 @@ psf_ftruncate (SF_PRIVATE *psf, sf_count_t len)
 	if (len < 0)
 		return -1 ;
 
+	/* SF_VIRTUAL_IO has no truncate callback and there is no descriptor. */
+	if (psf->virtual_io)
+		return -1 ;
+
 	if ((sizeof (off_t) < sizeof (sf_count_t)) && len > 0x7FFFFFFF)
 		return -1 ;
 
@@ -1178,6 +1182,10 @@ psf_ftruncate (SF_PRIVATE *psf, sf_count_t len)
 	/* Returns 0 on success, non-zero on failure. */
 	if (len < 0)
 		return 1 ;
+
+	/* SF_VIRTUAL_IO has no truncate callback and there is no file handle. */
+	if (psf->virtual_io)
+		return -1 ;
 
 	liDistanceToMove.QuadPart = (sf_count_t) len ;
 
